@@ -377,7 +377,7 @@ func (m *memSinker) Sink(path string) (io.WriteCloser, error) {
 // reports success then every file the receiver produced equals its source.
 func execRsyncFailTransmit(plan *simkit.Plan) *simkit.Result {
 	res := simkit.RunPlain(plan, func(s *simkit.Sim) {
-		dir, err := os.MkdirTemp(shmDir(), "verif-wiresim-")
+		dir, err := simkit.MkdirTemp(shmDir(), "verif-wiresim-")
 		if err != nil {
 			panic(err)
 		}
